@@ -627,6 +627,25 @@ cleanup:
       continue;
     }
 
+    /* A completion callback run since the entry was queued may have removed
+     * the requested server from the channel (ares_set_servers*() is allowed
+     * from a callback): fall back to the normal server selection then */
+    if (entry.server != NULL) {
+      ares_slist_node_t *snode;
+      ares_bool_t        found = ARES_FALSE;
+
+      for (snode = ares_slist_node_first(channel->servers); snode != NULL;
+           snode = ares_slist_node_next(snode)) {
+        if (ares_slist_node_val(snode) == entry.server) {
+          found = ARES_TRUE;
+          break;
+        }
+      }
+      if (!found) {
+        entry.server = NULL;
+      }
+    }
+
     internal_status = ares_send_query(entry.server, query, now);
     /* We only care about ARES_ENOMEM */
     if (internal_status == ARES_ENOMEM) {
